@@ -2,6 +2,7 @@ CONSTANTS
   Users = {1, 2, 3}
   Fresh = {11, 12}
   HasAcct = 3
+  Denoms = {1, 2}
   Funds <- FundsReal
   Amounts = {0, 1, 2}
   Months = {1, 24}
